@@ -8,7 +8,7 @@ RUST_TARGET = os.path.join(TARGET, "rust")
 AGENT_TARGET = os.path.join(TARGET, "agent")
 SHIM_BIN = os.path.join(RUST_TARGET, "debug", "gpa-shim")
 AGENT_BIN = os.path.join(AGENT_TARGET, "debug", "azure-proxy-agent")
-SETUP_BIN = os.path.join(AGENT_TARGET, "debug", "proxy_agent_setup")
+SETUP_BIN = os.path.join(AGENT_TARGET, "release", "proxy_agent_setup")
 REPLAYS = os.path.join(VERIF, "replays")
 EVIDENCE = os.path.join(VERIF, "evidence")
 
@@ -58,12 +58,18 @@ def build_rust():
             json.dump(default_config(), f)
 
 
-def build_agent(packages=("azure-proxy-agent", "proxy_agent_setup")):
+def build_agent(packages=("azure-proxy-agent",)):
     env = dict(CARGO_ENV, CARGO_TARGET_DIR=AGENT_TARGET)
     cmd = ["cargo", "build", "--offline", "--manifest-path", os.path.join(REPO, "Cargo.toml")]
     for p in packages:
         cmd += ["-p", p]
     _run(cmd, env, REPO, "agent binaries")
+
+
+def build_setup_tool():
+    """release profile: clap's debug assertions make the debug build of the tool panic on `restore`, which production builds never run"""
+    env = dict(CARGO_ENV, CARGO_TARGET_DIR=AGENT_TARGET)
+    _run(["cargo", "build", "--offline", "--release", "--manifest-path", os.path.join(REPO, "Cargo.toml"), "-p", "proxy_agent_setup"], env, REPO, "setup tool (release)")
 
 
 def default_config(poll_s=1):
